@@ -11,6 +11,7 @@ import (
 	"sort"
 	"strings"
 	"testing"
+	"unicode/utf8"
 
 	"github.com/vx-labs/wasp/v4/subscriptions"
 	"github.com/vx-labs/wasp/v4/topics"
@@ -177,6 +178,12 @@ func run(c Case) (msg string, nontrivial bool) {
 			model[op.Key] = model[op.Key] + op.Val
 		case "rt":
 			n, err := s.roundTrip()
+			if err != nil && strings.Contains(err.Error(), "invalid UTF-8") && !allUTF8(c.Keys) {
+				// the serialised form keeps levels in protobuf strings: a store holding a level that
+				// is not valid UTF-8 cannot be dumped. MQTT topic names are UTF-8; the round trip is
+				// only asked of stores whose keys are (the broker itself never dumps its tries).
+				continue
+			}
 			if err != nil {
 				return fmt.Sprintf("step %d: dump/load failed: %v", i, err), nontrivial
 			}
@@ -311,6 +318,10 @@ func genKeys(t *rapid.T) []string {
 	if rapid.IntRange(0, 5).Draw(t, "longLevels") == 0 {
 		levels = append(levels, "ab", "é", "a b")
 	}
+	if rapid.IntRange(0, 5).Draw(t, "binaryLevels") == 0 {
+		// levels that are not valid UTF-8 next to their usual printable spellings: distinct strings
+		levels = append(levels, "\xff", `\xff`, "\xfe", `\xfe`, "%ff", "\ufffd", "\xc3", "\x00", `\x00`)
+	}
 	n := rapid.IntRange(2, 8).Draw(t, "nkeys")
 	seen := map[string]bool{}
 	var keys []string
@@ -386,4 +397,13 @@ func TestRandom(t *testing.T) {
 	rapid.Check(t, func(t *rapid.T) {
 		check(t, genCase(t))
 	})
+}
+
+func allUTF8(keys []string) bool {
+	for _, k := range keys {
+		if !utf8.ValidString(k) {
+			return false
+		}
+	}
+	return true
 }
